@@ -43,7 +43,8 @@ PROPS = {
         groups=[
             dict(pkg=EVAL, harness="harness/eval", shared="harness/shared",
                  quick=ev("^ZZ_C02_", "2 ANPs with symbolic distinct priorities inserted in index order (every relative order of position and priority), "
-                          "first ANP from 24 shapes with a symbolic port range, second selecting everything with any action; optional BANP; optional NetworkPolicy with a symbolic range; all pairs",
+                          "first ANP from 24 shapes with a symbolic port range, second selecting everything with any action; optional BANP; optional NetworkPolicy with a symbolic range; all pairs; "
+                          "RuleOrder: one ANP or the BANP with two rules (every pair of actions x 2 peers x {all ports, UDP n + TCP m symbolic}) — the first matching rule decides",
                           "more ANPs/rules per ANP; richer subjects; equal priorities", models=40),
                  thorough=ev("^ZZ_C02_", "2-3 ANPs, first with <=2 rules from the full menus (3 subjects x 3 actions x 3 peers x 4 port kinds incl. named port)",
                              "more than 3 ANPs", models=300)),
